@@ -163,6 +163,7 @@ func runC19(c *vlib.Ctx) {
 	c.Set("kv_copies", copies)
 	c19Large(c)
 	c19Other(c)
+	c19LateInstance(c)
 	c.Sample(map[string]interface{}{"shape": "diamond", "keys": []string{"a", "a0", "aa"}, "per_key_ops_per_node": [][]int{{1, 2, 0, 0}, {0, 1, 1, 0}, {1, 0, 0, 0}}, "copies": "full at node 0 and 3, flatten at every node", "compared": "keys, key/<k>, keyrangevalues at every version"})
 	c.Set("rule", "key-value world = (DAG shape, 3 keys, per-key op vector); every world is copied in full (issued at the root and the last node; thorough: every node) and flattened at every node; all read endpoints of the copy are compared with the source at every version (flatten: at its version). Other types: scripted branched histories. Non-trivial = world with >= 2 stored entries")
 	c.Assume("copy onto a second store is not exercised (store assignment is fixed by the server TOML before instance names exist); same-store copies only")
@@ -457,4 +458,116 @@ func c19ReloadedConfigDiff(root, name string) string {
 		return "a restart would change the copy's settings: live " + trunc(a, 600) + " stored " + trunc(b, 600)
 	}
 	return ""
+}
+
+// c19LateInstance: instances created at a version that is NOT the repo root (data instances are visible in the whole repo
+// whichever version they were created at). DAG: root -> {A -> A2, B -> B2}; the instance is created at the root, at A, or
+// at B2 (after the other nodes exist); every node writes: puts, an overwrite, a delete, keys only one branch has. Full and
+// flattened copies issued at every version; every key and the key list compared at every version.
+func c19LateInstance(c *vlib.Ctx) {
+	keys := []string{"k1", "k2", "k3", "k4"}
+	snap := func(u, inst string) string {
+		var sb strings.Builder
+		x := vsrv.Get("node/" + u + "/" + inst + "/keys")
+		fmt.Fprintf(&sb, "keys=%d:%s;", x.Code, x.Body)
+		for _, k := range keys {
+			y := vsrv.Get("node/" + u + "/" + inst + "/key/" + k)
+			fmt.Fprintf(&sb, "%s=%d:%s;", k, y.Code, y.Body)
+		}
+		return sb.String()
+	}
+	for _, createdAt := range []string{"root", "A", "B2"} {
+		root, err := vsrv.NewRepo()
+		if err != nil {
+			c.Violate("harness:repo", err.Error(), nil)
+			return
+		}
+		nodes := map[string]string{"root": root}
+		mk := func(at string) bool {
+			if createdAt != at {
+				return true
+			}
+			if err := vsrv.NewInstance(nodes[at], "keyvalue", "late", nil); err != nil {
+				c.Violate("harness:late-instance", fmt.Sprintf("creating the instance at node %s: %v", at, err), nil)
+				return false
+			}
+			return true
+		}
+		put := func(at, k, v string) { vsrv.PostS("node/"+nodes[at]+"/late/key/"+k, v) }
+		if !mk("root") {
+			continue
+		}
+		if createdAt == "root" {
+			put("root", "k1", "root1")
+		}
+		vsrv.Commit(root)
+		nodes["A"], _ = vsrv.Branch(root, "a")
+		nodes["B"], _ = vsrv.Branch(root, "b")
+		if !mk("A") {
+			continue
+		}
+		if createdAt != "B2" {
+			put("A", "k1", "a1")
+			put("A", "k2", "a2")
+			put("B", "k1", "b1") // the sibling branch: not a descendant of A
+			put("B", "k3", "b3")
+		}
+		vsrv.Commit(nodes["A"])
+		vsrv.Commit(nodes["B"])
+		nodes["A2"], _ = vsrv.NewVersion(nodes["A"])
+		nodes["B2"], _ = vsrv.NewVersion(nodes["B"])
+		if !mk("B2") {
+			continue
+		}
+		put("A2", "k2", "a2-again")
+		vsrv.Delete("node/" + nodes["A2"] + "/late/key/k1")
+		put("A2", "k4", "a4")
+		put("B2", "k3", "b3-again")
+		vsrv.Delete("node/" + nodes["B2"] + "/late/key/k3")
+		put("B2", "k4", "b4")
+		order := []string{"root", "A", "B", "A2", "B2"}
+		src := map[string]string{}
+		distinct := map[string]bool{}
+		for _, n := range order {
+			src[n] = snap(nodes[n], "late")
+			distinct[src[n]] = true
+		}
+		if len(distinct) >= 3 {
+			c.Nontrivial("late-instance:" + createdAt)
+		}
+		for _, at := range order {
+			for _, flatten := range []bool{false, true} {
+				kind := "full"
+				if flatten {
+					kind = "flatten"
+				}
+				dst := fmt.Sprintf("late_%s_%s", at, kind)
+				c.Eval(1)
+				var err error
+				if pn := vlib.Safely(func() {
+					err = datastore.CopyInstance(dvid.UUID(nodes[at]), "late", dvid.InstanceName(dst), c19Config(flatten))
+				}); pn != nil || err != nil {
+					c.Violate("kv-late:copy-error:"+kind, fmt.Sprintf("CopyInstance(%s at node %s) of an instance created at %s failed: %v %v", kind, at, createdAt, pn, err), nil)
+					continue
+				}
+				for _, n := range order {
+					if flatten && n != at {
+						continue
+					}
+					c.Eval(1)
+					if got := snap(nodes[n], dst); got != src[n] {
+						c.Violate("kv-late:"+kind+":differs:created-at-"+createdAt, fmt.Sprintf("%s copy (issued at node %s) of a keyvalue instance that was created at node %s: reads at node %s differ: copy %s source %s", kind, at, createdAt, n, got, src[n]),
+							map[string]interface{}{"created_at": createdAt, "copy": kind, "issued_at": at, "read_at": n})
+						break
+					}
+				}
+				c.Outcome("late:" + kind)
+			}
+		}
+		for _, n := range order {
+			if got := snap(nodes[n], "late"); got != src[n] {
+				c.Violate("kv-late:source-changed", fmt.Sprintf("source reads differently at node %s after copies", n), nil)
+			}
+		}
+	}
 }
